@@ -143,6 +143,12 @@ def trace_case(spec, ctx):
         if not same:
             ctx.fail("python-vs-cpp:trace", f"python {a}\ncpp {b}", spec)
 
+    # a second, independent managed filter ticked in between must not influence this one (no state shared by instances)
+    with ctx.formak("python:tick:interleaved", spec):
+        ev_i, _ = rt.run_py_history(spec, max_dt, interloper=True)
+    if ev_i != ev:
+        ctx.fail("python:instances-share-state", "the recorded calls differ when another ManagedFilter instance is ticked in between", spec)
+
     # (d) metamorphic: read-only ticks inserted anywhere change nothing later
     if spec.get("inserts"):
         h2 = copy.deepcopy(spec)
